@@ -40,6 +40,11 @@ const Type& ROUNDExpression::type(Context &ctx) const
 Value& ROUNDExpression::value(Context & ctx) const
 {
   Value& val = _args[0]->value(ctx);
+
+  /* a table, null or not, is not an argument of this function */
+  if (val.type().level())
+    throw RuntimeError(EXC_RT_FUNC_ARG_TYPE_S, KEYWORDS[oper]);
+
   if (_args.size() > 1)
   {
     double d = 1.0;
